@@ -31,6 +31,74 @@ pub struct Case {
     /// Radau / BDF through the low-level builder with this Newton iteration budget (1..3: iterations that run out of budget)
     #[serde(default)]
     pub low_newton: Option<usize>,
+    /// Radau / BDF on y' = +-2^k y (analytic Jacobian) with the first step that makes the iteration matrix exactly singular
+    /// at the first attempt (k, backward, rates of extra decoupled components relative to 2^k, span / first step): the
+    /// singular-matrix retry path evaluates the Jacobian again; every such call must be counted
+    #[serde(default)]
+    pub resonant: Option<(i32, bool, Vec<f64>, f64)>,
+}
+
+struct Reso {
+    lam: f64,
+    extra: Vec<f64>,
+}
+impl Rhs for Reso {
+    fn dim(&self) -> usize {
+        1 + self.extra.len()
+    }
+    fn f(&self, _t: f64, y: &[f64], dy: &mut [f64]) {
+        dy[0] = self.lam * y[0];
+        for (i, e) in self.extra.iter().enumerate() {
+            dy[i + 1] = e * self.lam.abs() * y[i + 1];
+        }
+    }
+    fn has_jac(&self) -> bool {
+        true
+    }
+    fn jac_dense(&self, _t: f64, _y: &[f64], j: &mut [f64]) {
+        let n = self.dim();
+        for v in j.iter_mut() {
+            *v = 0.0;
+        }
+        j[0] = self.lam;
+        for (i, e) in self.extra.iter().enumerate() {
+            j[(i + 1) * n + i + 1] = e * self.lam.abs();
+        }
+    }
+}
+
+fn check_resonant(c: &Case, k: i32, neg: bool, extra: &[f64], mult: f64) -> Outcome {
+    let meth = if c.method == Meth::BDF { Meth::BDF } else { Meth::RADAU };
+    // the constants as the solvers form them (as in C04's resonant cases)
+    let gamma = if meth == Meth::BDF { 1.0 - (-0.1850) } else { 3.637_834_252_744_496 };
+    let lam = crate::instr::ldexp(if neg { -1.0 } else { 1.0 }, k);
+    let d = if neg { -1.0 } else { 1.0 };
+    let h0 = gamma / lam.abs();
+    let (x0, xend) = (0.0, d * h0 * mult);
+    let rhs = Reso { lam, extra: extra.to_vec() };
+    let n = rhs.dim();
+    let none: Vec<EvSpec> = vec![];
+    let mut instr = Instr::new(&rhs, &none);
+    instr.dir = d;
+    instr.use_jac = true;
+    instr.budget = 2_000_000;
+    let o = RunOpts { method: meth, rtol: c.rtol.fit(n), atol: c.atol.fit(n), first_step: Some(h0), max_step: None, max_steps: Some(c.max_steps.unwrap_or(3000)), t_eval: None, dense: c.dense };
+    let sol = match solve(&instr, x0, xend, &vec![1.0; n], &o) {
+        RunResult::Ok(s) => s,
+        other => return Outcome::triv(format!("resonant:no-solution:{}", other.describe().chars().take(30).collect::<String>())),
+    };
+    let log = instr.take_log();
+    let desc = format!("{} {} (y' = {:e} y, first_step = {:e}: iteration matrix exactly singular at the first attempt)", meth.name(), status_name(sol.status), lam, h0);
+    if sol.nfev as u64 != log.ode_calls {
+        return Outcome::viol(format!("{}: nfev={} but the stepper made {} right-hand-side evaluations", desc, sol.nfev, log.ode_calls));
+    }
+    if sol.njev as u64 != log.jac_calls {
+        return Outcome::viol(format!("{}: njev={} but jac was called {} times", desc, sol.njev, log.jac_calls));
+    }
+    if sol.nstep < sol.naccpt {
+        return Outcome::viol(format!("{}: nstep={} < naccpt={}", desc, sol.nstep, sol.naccpt));
+    }
+    Outcome::pass(format!("{}:resonant:{}", meth.name(), status_name(sol.status)), true, json!({"nfev": sol.nfev, "njev": sol.njev, "nlu": sol.nlu, "naccpt": sol.naccpt}))
 }
 
 struct Quiet;
@@ -73,6 +141,9 @@ fn check_low(c: &Case, k: usize) -> Outcome {
 }
 
 pub fn check(c: &Case) -> Outcome {
+    if let Some((k, neg, extra, mult)) = &c.resonant {
+        return check_resonant(c, *k, *neg, extra, *mult);
+    }
     if let (Some(k), true) = (c.low_newton, c.method.implicit()) {
         return check_low(c, k);
     }
@@ -166,8 +237,9 @@ pub fn strategy() -> BoxedStrategy<Case> {
             3 => (fr(0.05, 0.98), 0u8..3).prop_map(|(at, v)| Fault::From { at, v }),
             1 => (fr(0.05, 0.98), 0usize..6, 0u8..3).prop_map(|(at, i, v)| Fault::CompFrom { at, i, v }),
         ]), proptest::option::weighted(0.06, 1usize..=3)),
+        proptest::option::weighted(0.02, (-20i32..=20, any::<bool>(), proptest::collection::vec(fr(-2.0, 0.9), 0..3), fr(1.5, 10.0))),
     )
-        .prop_map(|(mut prob, span, mut method, (rtol, atol), analytic_jac, first_step, mut max_steps, t_eval, dense, (z, terminal_at, stiff, le), (fault, low_newton))| {
+        .prop_map(|(mut prob, span, mut method, (rtol, atol), analytic_jac, first_step, mut max_steps, t_eval, dense, (z, terminal_at, stiff, le), (fault, low_newton), resonant)| {
             // a faulty right-hand side can keep an explicit method busy for ever (C04's subject): bound those runs
             if fault.is_some() && max_steps.is_none() {
                 max_steps = Some(3000);
@@ -188,7 +260,7 @@ pub fn strategy() -> BoxedStrategy<Case> {
                 method = if analytic_jac { Meth::DOPRI5 } else { Meth::DOP853 };
                 max_steps = None;
             }
-            Case { prob, span, method, rtol, atol, analytic_jac, first_step, max_steps, t_eval, dense, zero_length: z == 0, terminal_at, fault, low_newton }
+            Case { prob, span, method, rtol, atol, analytic_jac, first_step, max_steps, t_eval, dense, zero_length: z == 0, terminal_at, fault, low_newton, resonant }
         })
         .boxed()
 }
@@ -201,7 +273,7 @@ pub fn run(ctx: &Ctx, known: &[Known]) -> Report {
     let stats = run_generated(ctx, "C18", "gen", &strategy, &check, cases, known);
     Report {
         id: "C18".into(),
-        rule: "cases = closed-form problems (n<=6) x spans x six methods x tolerances 1e-3..1e-9 (scalar/vector) x analytic or finite-difference Jacobian x first_step x max_steps x t_eval x dense x optional terminal time event, plus zero-length runs; 8 % of the cases have a right-hand side that becomes NaN / +-inf from a generated time on (failed Newton iterations, rejected steps and failure exits are counted as they happened; max_steps <= 3000 there); 6 % drive Radau / BDF through the low-level builder with newton_maxiter = 1..3 and compare IntegrationResult.evals with the calls made. Oracle: counters of an instrumented IVP (ode calls outside Jacobian differencing, jac calls, one events() call per accepted step through a never-crossing event function). Non-trivial = at least one rejected step, or an implicit method (njev/nlu exercised), or a zero-length run. Distinct = distinct canonical JSON.".into(),
+        rule: "cases = closed-form problems (n<=6) x spans x six methods x tolerances 1e-3..1e-9 (scalar/vector) x analytic or finite-difference Jacobian x first_step x max_steps x t_eval x dense x optional terminal time event, plus zero-length runs; 8 % of the cases have a right-hand side that becomes NaN / +-inf from a generated time on (failed Newton iterations, rejected steps and failure exits are counted as they happened; max_steps <= 3000 there); 6 % drive Radau / BDF through the low-level builder with newton_maxiter = 1..3 and compare IntegrationResult.evals with the calls made; 2 % run Radau / BDF on y' = +-2^k y (plus up to two decoupled components, analytic Jacobian) with the first step that makes the iteration matrix exactly singular at the first attempt, so that the singular-matrix retry (and its repeated Jacobian evaluation) is on the path. Oracle: counters of an instrumented IVP (ode calls outside Jacobian differencing, jac calls, one events() call per accepted step through a never-crossing event function). Non-trivial = at least one rejected step, or an implicit method (njev/nlu exercised), or a zero-length run. Distinct = distinct canonical JSON.".into(),
         assumptions: vec!["right-hand-side evaluations made by the crate's default finite-difference Jacobian are identified by a flag set while IVP::jac runs".into()],
         min_nontrivial_frac: 0.3,
         stats,
